@@ -488,11 +488,15 @@ func parseField(v reflect.Value, data []byte, initOffset int, info *fieldInfo) (
 		v.Set(reflect.MakeSlice(sliceType, 0, datalen))
 		single := reflect.New(sliceType.Elem())
 		for innerOffset := 0; innerOffset < len(inner); {
-			var err error
-			innerOffset, err = parseField(single.Elem(), inner, innerOffset, nil)
+			next, err := parseField(single.Elem(), inner, innerOffset, nil)
 			if err != nil {
 				return offset, err
 			}
+			if next == innerOffset {
+				// An element that consumes no data would never terminate.
+				return offset, structuralError{info.fieldName(), "zero-length element in slice"}
+			}
+			innerOffset = next
 			v.Set(reflect.Append(v, single.Elem()))
 		}
 		return offset, nil
